@@ -1416,3 +1416,83 @@ class v1_wait_for_data(Contract):
             ok, ans = c._validated(cx)
             out['validation_failure_only_after_the_validator_refused'] = tag == 'result' and ok and not (ans is True or ans == 1 and ans is not False)
         return out
+
+
+@contract
+class v1_express_raw_interest(Contract):
+    fn = app1.NDNApp.express_raw_interest
+    props = ('C03',)
+    doc = ('legacy express_raw_interest: exactly one new pending entry (fresh future, the Interest\'s parameters, implicit digest) is '
+           'registered under the name without its digest component - in the existing node of that name or a new one - BEFORE the '
+           'Interest is handed to the face exactly once; the coroutine returned waits on that same future for the Interest lifetime '
+           'and validates with the validator given')
+    raises = {}
+
+    def setup(self, cx):
+        run = cx.run
+        nk = run.choose([('node exists', True), ('no node yet', True)], 'pit')
+        node = NodeModel(run, 'node') if nk == 'node exists' else None
+        pit = PitModel(run, node)
+        face = EvFace(run, True)
+        lk = run.choose([('lifetime', True), ('lifetime=None', True)], 'lifetime')
+        lifetime = run.input_int('lifetime') if lk == 'lifetime' else None
+        from pyvc.symseq import AbsObj
+        param = AbsObj('interest_param', dict(lifetime=lifetime, can_be_prefix=run.input_bool('can_be_prefix'),
+                                              must_be_fresh=run.input_bool('must_be_fresh')))
+        name = PName(run, 'final_name')
+        run.assume(Not(name.empty))
+        v = UserCoroutineFn('validator', [True])
+        dv = UserCoroutineFn('default_validator', [True])
+        app_ = mk_app1(cx, pit, face, data_validator=dv)
+        data = tuple(Opaque('token', x) for x in ('data name', 'meta', 'content', 'sig', 'raw packet'))
+        run.ghost['eri1'] = dict(pit=pit, node=node, face=face, lifetime=lifetime, v=v)
+        run.ghost['wfd1'] = dict(data=data, app=app_, dv=dv, v=v)
+        return dict(self=app_, final_name=name, interest_param=param, raw_interest=Opaque('token', 'raw interest'),
+                    validator=v, need_raw_packet=False)
+
+    def post(c, cx, result, self, final_name, interest_param, raw_interest, validator, need_raw_packet):
+        run, it = cx.run, cx.it
+        g = run.ghost['eri1']
+        pit, node, face = g['pit'], g['node'], g['face']
+        out = {'interest_sent_exactly_once': len(face.sent) == 1 and face.sent[0][0] is raw_interest}
+        lp = run.ghost.get('aio.loop')
+        out['one_fresh_future'] = lp is not None and len(lp.created) == 1
+        if not out['one_fresh_future']:
+            return out
+        fut = lp.created[0]
+        digest = final_name.last_type == Component.TYPE_IMPLICIT_SHA256
+        key = pit.queried[0] if pit.queried else None
+        out['registered_under_the_name_without_digest_component'] = len(pit.queried) == 1 and And(
+            Implies(digest, isinstance(key, PName) and key.stripped_of is final_name), Implies(Not(digest), key is final_name))
+        events = run.ghost.get('pit.events', [])
+        if node is not None:
+            ok = [x[0] for x in node.calls] == ['append_interest']
+            out['one_entry_appended_to_the_existing_node'] = ok and pit.created is None
+            if ok:
+                a = node.calls[0][1]
+                out['entry_fields'] = len(a) == 3 and a[0] is fut and a[1] is interest_param
+                dg = a[2] if len(a) == 3 else None
+                out['entry_digest'] = And(Implies(digest, isinstance(dg, PDigest) and dg.of is final_name), Implies(Not(digest), _is_empty_bytes(dg)))
+                out['registered_before_sent'] = [e[0] for e in events] == ['append_interest', 'send']
+        else:
+            nd = pit.created
+            ok = isinstance(nd, SymObj) and nd.cls is nt.InterestTreeNode and isinstance(nd.d.get('pending_list'), list) and \
+                len(nd.d['pending_list']) == 1
+            out['new_node_with_exactly_this_entry'] = ok
+            if ok:
+                e = nd.d['pending_list'][0]
+                okf = isinstance(e, SymObj) and e.d.get('future') is fut
+                out['entry_fields'] = And(okf, Iff(e.d.get('can_be_prefix'), interest_param.attrs['can_be_prefix']),
+                                          Iff(e.d.get('must_be_fresh'), interest_param.attrs['must_be_fresh'])) if okf else False
+                dg = e.d.get('implicit_sha256')
+                out['entry_digest'] = And(Implies(digest, isinstance(dg, PDigest) and dg.of is final_name), Implies(Not(digest), _is_empty_bytes(dg)))
+        try:
+            it.await_value(result)
+        except PyExc:
+            pass
+        w = run.ghost.get('wait_for', [])
+        out['returned_coroutine_waits_on_that_future'] = len(w) == 1 and w[0][0] is fut
+        used = g['v']
+        if w and w[0][2] == 'result':
+            out['returned_coroutine_validates_with_the_given_validator'] = len(used.calls) == 1
+        return out
